@@ -33,7 +33,20 @@ def dictJson (d : Dict String) : Json :=
 def warnJson (w : List Warning) : Json :=
   Json.arr (w.map (fun x => Json.arr #[Json.str x.1, Json.num (JsonNumber.fromNat x.2)])).toArray
 
+/-- {"op":"csv","exists":[nodes?,edges?],"overwrite":b} → {"raised":b,"nodes":"old"|"new"|"absent","edges":…} -/
+def handleCsv (j : Json) : Except String Json := do
+  let ex ← (← j.getObjVal? "exists").getArr?
+  let en ← ex[0]!.getBool?
+  let ee ← ex[1]!.getBool?
+  let ow ← (← j.getObjVal? "overwrite").getBool?
+  let fs : FS := (if en then [("out-nodes.csv", "old")] else []) ++ (if ee then [("out-edges.csv", "old")] else [])
+  let (raised, fs') := geffToCsv fs "out" "new" "new" ow
+  let st (p : String) : String := match fsGet fs' p with | some c => c | none => "absent"
+  return Json.mkObj [("raised", Json.bool raised), ("nodes", Json.str (st "out-nodes.csv")),
+                     ("edges", Json.str (st "out-edges.csv"))]
+
 def handle (j : Json) : Except String Json := do
+  if let .ok (Json.str "csv") := j.getObjVal? "op" then return ← handleCsv j
   let nodeIds ← getStrList (← j.getObjVal? "node_ids")
   let edges ← (← (← j.getObjVal? "edges").getArr?).toList.mapM (fun p => do
     let q ← getStrList p
